@@ -113,7 +113,8 @@ def resubmit_jobs(output, failed, missing, successful, submission_groups_file, v
     _reset_results(output, jobs_to_resubmit)
     cluster.prepare_for_resubmission(jobs_to_resubmit, updated_blocking_jobs_by_name)
     events_dir = Path(output) / EVENTS_DIR
-    for path in list(events_dir.iterdir()):
+    # The directory does not exist if the submission ran without report generation.
+    for path in list(events_dir.iterdir()) if events_dir.exists() else []:
         # These files will get regenerated. It would be better to only generate events for new
         # compute node batches, but the code in events.py doesn't support that.
         # TODO
